@@ -219,12 +219,44 @@ Proof.
   apply Pr_bind; [apply Pr_get_cell|]. intros s. apply Pr_bind; [apply H|]. intros _. apply IH.
 Qed.
 
+Lemma Pr_all2M {A B} (f : A -> B -> M bool) l1 l2 : (forall x y, Pr (f x y)) -> Pr (all2M f l1 l2).
+Proof.
+  intros H. revert l2. induction l1 as [|x r IH]; intros l2; cbn [all2M]; [apply Pr_ret|].
+  destruct l2 as [|y r2]; [apply Pr_ret|]. apply Pr_bind; [apply H|]. intros ok. destruct ok; [apply IH|apply Pr_ret].
+Qed.
+Lemma Pr_rec_pair_layout sl e1 e2 : (forall x y, Pr (sl x y)) -> Pr (rec_pair_layout sl e1 e2).
+Proof.
+  intros H. unfold rec_pair_layout. apply Pr_bind; [apply Pr_get_cell|]. intros c1. apply Pr_bind; [apply Pr_get_cell|]. intros c2.
+  destruct (c_val c1); try apply Pr_failm. destruct (c_val c2); try apply Pr_failm. apply H.
+Qed.
+Lemma Pr_arr_layout sl a1 a2 : (forall x y, Pr (sl x y)) -> Pr (arr_layout sl a1 a2).
+Proof.
+  intros H. unfold arr_layout. destruct (negb _); [apply Pr_ret|]. destruct (negb _); [apply Pr_ret|].
+  apply Pr_all2M. intros x y. apply Pr_rec_pair_layout. exact H.
+Qed.
+Lemma Pr_same_layout fuel : forall dc sc, Pr (same_layout fuel dc sc).
+Proof.
+  induction fuel as [|f IH]; intros dc sc; cbn [same_layout]; [apply Pr_failm|].
+  apply Pr_bind; [apply Pr_get_ctx|]. intros dx. apply Pr_bind; [apply Pr_get_ctx|]. intros sx.
+  destruct (_ || _); [apply Pr_ret|]. apply Pr_bind.
+  - apply Pr_all2M. intros dv sv. apply Pr_bind; [apply Pr_get_cell|]. intros d. apply Pr_bind; [apply Pr_get_cell|]. intros s0.
+    destruct (negb _); [apply Pr_ret|]. destruct (dt_is _ _); [|apply Pr_ret].
+    destruct (c_val d); try apply Pr_failm. destruct (c_val s0); try apply Pr_failm. apply IH.
+  - intros ok. destruct (negb ok); [apply Pr_ret|]. apply Pr_all2M. intros da sa.
+    apply Pr_bind; [apply Pr_get_arr|]. intros a1. apply Pr_bind; [apply Pr_get_arr|]. intros a2. apply Pr_arr_layout. exact IH.
+Qed.
+Lemma Pr_composite_assign cvd fuel tn0 dc tn sc : (forall a b, Pr (cvd a b)) -> Pr (composite_assign cvd fuel tn0 dc tn sc).
+Proof.
+  intros H. unfold composite_assign. destruct (str_eqb tn0 tn); [|apply Pr_failm].
+  apply Pr_bind; [apply Pr_same_layout|]. intros ok. destruct ok; [apply H|apply Pr_runtime_error_cls].
+Qed.
+
 Lemma Pr_set_copy_both fuel : (forall d p, Pr (set_copy fuel d p)) /\ (forall dc sc, Pr (copy_var_data fuel dc sc)).
 Proof.
   induction fuel as [|f [IHs IHc]].
   - split; intros; [cbn [set_copy]|cbn [copy_var_data]]; apply Pr_failm.
   - split.
-    + intros d p. cbn [set_copy]. pr_with ltac:(first [apply IHs | apply IHc | apply Pr_copy_val | apply Pr_set_cell_val]).
+    + intros d p. cbn [set_copy]. pr_with ltac:(first [apply IHs | apply IHc | apply Pr_copy_val | apply Pr_set_cell_val | (apply Pr_composite_assign; exact IHc)]).
     + intros dc sc. cbn [copy_var_data].
       pr_with ltac:(first [apply IHs | apply IHc | apply Pr_copy_val | apply Pr_set_cell_val | apply (Pr_copy_go (set_copy f) IHs)]).
 Qed.
@@ -240,7 +272,9 @@ Proof.
   apply (Pr_copy_go (set_copy fuel)). intros. apply Pr_set_copy.
 Qed.
 
-Ltac heap_known := first [ apply Pr_copy_val | apply Pr_copy_ctx | apply Pr_set_cell_val | apply Pr_set_copy | apply Pr_copy_var_data | apply Pr_copy_array_data ].
+Ltac heap_known := first [ apply Pr_copy_val | apply Pr_copy_ctx | apply Pr_set_cell_val | apply Pr_set_copy | apply Pr_copy_var_data | apply Pr_copy_array_data
+                         | apply Pr_same_layout | (apply Pr_arr_layout; intros; apply Pr_same_layout)
+                         | (apply Pr_composite_assign; intros; apply Pr_copy_var_data) ].
 
 Lemma Pr_assign_val fuel dst v : Pr (assign_val fuel dst v).
 Proof. unfold assign_val. pr_with heap_known. Qed.
